@@ -439,11 +439,63 @@ Qed.
 (* ------------------------------------------------------------------------------------ *)
 (* the theorems about the model *)
 
+Lemma own_ok_b_iff r h vs : own_ok_b r h vs = true <-> own_ok r h vs.
+Proof.
+  unfold own_ok_b, own_ok. destruct (own_value r h) as [v|]; [|split; discriminate].
+  rewrite sl_eqb_eq. split; [intros ->; reflexivity|intros H; inversion H; reflexivity].
+Qed.
+
+Lemma own_ok_own r h vs : own_ok r h vs -> own h.
+Proof.
+  unfold own_ok, own_value, own, overwritten.
+  destruct (str_eqb h XFF) eqn:E1; [apply str_eqb_eq in E1; auto|].
+  destruct (str_eqb h XFH) eqn:E2; [apply str_eqb_eq in E2; auto|].
+  destruct (str_eqb h UA) eqn:E3; [apply str_eqb_eq in E3; auto|].
+  destruct (str_eqb h XFV) eqn:E4; [apply str_eqb_eq in E4; auto|discriminate].
+Qed.
+
+(* what the router leaves under every name once it has written its own headers *)
+Lemma getl_add_gateway ip host ua (m : hmap) h :
+  getl h (add_gateway ip host ua m) =
+  if str_eqb h XFF then [ip]
+  else if str_eqb h XFH then [host]
+  else if str_eqb h UA then (if mem UA m then getl UA m else [ua])
+  else if str_eqb h XFV then (if mem UA m then [ua] else getl XFV m)
+  else getl h m.
+Proof.
+  unfold add_gateway.
+  assert (Em : mem UA (set XFH [host] (set XFF [ip] m)) = mem UA m).
+  { unfold mem. rewrite !lookup_set. reflexivity. }
+  rewrite Em.
+  destruct (str_eqb h XFF) eqn:E1.
+  { apply str_eqb_eq in E1. subst h. destruct (mem UA m); rewrite !getl_set; reflexivity. }
+  destruct (str_eqb h XFH) eqn:E2.
+  { apply str_eqb_eq in E2. subst h. destruct (mem UA m); rewrite !getl_set; reflexivity. }
+  destruct (str_eqb h UA) eqn:E3.
+  { apply str_eqb_eq in E3. subst h. destruct (mem UA m); rewrite !getl_set; reflexivity. }
+  destruct (str_eqb h XFV) eqn:E4.
+  { apply str_eqb_eq in E4. subst h. destruct (mem UA m); rewrite !getl_set; reflexivity. }
+  destruct (mem UA m); rewrite !getl_set, ?E1, ?E2, ?E3, ?E4; reflexivity.
+Qed.
+
+(* whatever the router selected from the client's headers is allowed by the endpoint list and
+   is what the client sent - gateway-owned names included *)
+Lemma select_sound c r h :
+  getl h (select_h (ep_hl c) (client_hmap (r_lines r)) []) <> [] ->
+  allowed_ep_h c h /\ getl h (select_h (ep_hl c) (client_hmap (r_lines r)) []) = client_h r h.
+Proof.
+  rewrite getl_select_h0. intros Hne.
+  destruct (str_mem star (ep_hl c)) eqn:Es.
+  - split; [left; apply str_mem_In; exact Es|].
+    pose proof (client_hmap_key_canon r h Hne) as Hc.
+    rewrite <- Hc at 1. apply getl_client_hmap.
+  - destruct (str_mem h (ep_hl c)) eqn:Em; [|exfalso; apply Hne; reflexivity].
+    split; [right; apply str_mem_In; exact Em|]. apply getl_client_hmap.
+Qed.
+
 Theorem headers_sound_model c r : headers_sound c r (outgoing c r).
 Proof.
-  intros h Hne. destruct (own_b h) eqn:Eo; [left; apply own_b_iff; exact Eo|right].
-  apply own_b_false in Eo. destruct Eo as [H1 [H2 [H3 H4]]].
-  rewrite sent_h_outgoing in *.
+  intros h Hne. rewrite sent_h_outgoing in *.
   assert (Hbe : allowed_be_h c h /\
                 getl h (sel_headers c r) <> [] /\
                 (if is_nil (be_hl c) then getl h (sel_headers c r)
@@ -453,14 +505,19 @@ Proof.
     - destruct (str_mem h (be_hl c)) eqn:Em; [|exfalso; apply Hne; reflexivity].
       split; [right; apply str_mem_In; exact Em|split; [exact Hne|reflexivity]]. }
   destruct Hbe as [Hbe [Hne' Heq]]. rewrite Heq. clear Heq Hne.
-  unfold sel_headers in *. rewrite getl_add_gateway_other in * by assumption.
-  rewrite getl_select_h0 in *.
-  destruct (str_mem star (ep_hl c)) eqn:Es.
-  - split; [left; apply str_mem_In; exact Es|]. split; [exact Hbe|].
-    pose proof (client_hmap_key_canon r h Hne') as Hc.
-    rewrite <- Hc at 1. apply getl_client_hmap.
-  - destruct (str_mem h (ep_hl c)) eqn:Em; [|exfalso; apply Hne'; reflexivity].
-    split; [right; apply str_mem_In; exact Em|]. split; [exact Hbe|]. apply getl_client_hmap.
+  unfold sel_headers in *. rewrite getl_add_gateway in *.
+  unfold own_ok, own_value.
+  destruct (str_eqb h XFF); [left; reflexivity|].
+  destruct (str_eqb h XFH); [left; reflexivity|].
+  destruct (str_eqb h UA) eqn:E3.
+  { apply str_eqb_eq in E3. subst h.
+    destruct (mem UA (select_h (ep_hl c) (client_hmap (r_lines r)) [])); [|left; reflexivity].
+    right. destruct (select_sound c r UA Hne') as [Ha He]. auto. }
+  destruct (str_eqb h XFV) eqn:E4.
+  { apply str_eqb_eq in E4. subst h.
+    destruct (mem UA (select_h (ep_hl c) (client_hmap (r_lines r)) [])); [left; reflexivity|].
+    right. destruct (select_sound c r XFV Hne') as [Ha He]. auto. }
+  right. destruct (select_sound c r h Hne') as [Ha He]. auto.
 Qed.
 
 Theorem headers_complete_model c r : headers_complete c r (outgoing c r).
@@ -547,12 +604,12 @@ Proof.
     specialize (H (h, vs) (lookup_In _ _ _ El)). simpl in H. unfold sent_h, getl in H. rewrite El in H.
     apply orb_true_iff in H. destruct H as [H|H].
     + apply orb_true_iff in H. destruct H as [H|H]; [apply is_nil_true in H; contradiction|].
-      left. apply own_b_iff. exact H.
+      left. apply own_ok_b_iff. exact H.
     + right. apply andb_true_iff in H. destruct H as [H H3]. apply andb_true_iff in H. destruct H as [H1 H2].
       apply allowed_ep_hb_iff in H1. apply allowed_be_hb_iff in H2. apply sl_eqb_eq in H3. auto.
   - intros H [h vs] Hin. simpl. destruct (is_nil (sent_h o h)) eqn:En; [reflexivity|]. simpl.
     apply is_nil_false in En. destruct (H h En) as [Ho|[H1 [H2 H3]]].
-    + apply own_b_iff in Ho. rewrite Ho. reflexivity.
+    + apply own_ok_b_iff in Ho. rewrite Ho. reflexivity.
     + apply allowed_ep_hb_iff in H1. apply allowed_be_hb_iff in H2. rewrite H1, H2, H3, sl_eqb_refl.
       apply orb_true_r.
 Qed.
@@ -704,7 +761,7 @@ Qed.
 Theorem default_list_content_type_only c r h :
   c_ep_headers c = [] -> sent_h (outgoing c r) h <> [] -> ~ own h -> h = "Content-Type".
 Proof.
-  intros H Hs Hn. destruct (headers_sound_model c r h Hs) as [Ho|[Hep _]]; [contradiction|].
+  intros H Hs Hn. destruct (headers_sound_model c r h Hs) as [Ho|[Hep _]]; [apply own_ok_own in Ho; contradiction|].
   unfold allowed_ep_h, ep_hl in Hep. rewrite H in Hep. simpl in Hep.
   destruct Hep as [[E|[]]|[E|[]]]; [discriminate|symmetry; exact E].
 Qed.
@@ -997,7 +1054,7 @@ Proof.
   - apply forallb_forall. intros [h vs] _. cbn [fst].
     destruct (is_nil (sent_h (outgoing_gql g c r) h)) eqn:En; [reflexivity|]. apply is_nil_false in En.
     destruct (gql_headers_sound_model g c r h En) as [H|[H|[H1 [H2 H3]]]].
-    + apply own_b_iff in H. rewrite H. reflexivity.
+    + apply own_ok_b_iff in H. rewrite H. reflexivity.
     + rewrite H. rewrite orb_true_r. reflexivity.
     + apply allowed_ep_hb_iff in H1. apply allowed_be_hb_iff in H2. rewrite H1, H2, H3, sl_eqb_refl. apply orb_true_r.
   - apply forallb_forall. intros p Hin. set (h := canon (fst p)).
@@ -1017,4 +1074,21 @@ Proof.
   - pose proof (gql_own_headers_model g c r) as H. destruct g as [|n|opq]; [reflexivity| |];
       destruct H as [H1 H2]; rewrite H1, H2, !sl_eqb_refl; reflexivity.
   - apply forallb_forall. intros k _. rewrite (gql_query_exact_model g c r Hn Hk k). apply sl_eqb_refl.
+Qed.
+
+(* a piece of the client's query text that does not parse (bad escape, semicolon) changes
+   nothing for the other parameters, wherever it stands *)
+Theorem malformed_piece_ignored a junk :
+  parse_query junk = [] ->
+  parse_query (a ++ String amp junk) = parse_query a /\ parse_query (junk ++ String amp a) = parse_query a.
+Proof.
+  intros H. rewrite !parse_query_amp, H. split; [apply app_nil_r|reflexivity].
+Qed.
+
+Theorem gateway_values c r h :
+  own h -> sent_h (outgoing c r) h <> [] -> ~ (allowed_ep_h c h /\ allowed_be_h c h) ->
+  own_value r h = Some (sent_h (outgoing c r) h).
+Proof.
+  intros _ Hs Hn. destruct (headers_sound_model c r h Hs) as [H|[H1 [H2 _]]]; [exact H|].
+  exfalso. apply Hn. split; assumption.
 Qed.
